@@ -1157,7 +1157,43 @@ impl<'a> BodyGen<'a> {
                 s.expr(T::I32, depth + 1);
             }
         };
-        match self.r.gen_range(0..8) {
+        let nfuncs = self.d.funcs.len() as u32;
+        let reff = |s: &mut Self| {
+            if s.r.gen_bool(0.25) || nfuncs == 0 {
+                s.out.push(I::RefNull(we::HeapType::Abstract { shared: false, ty: we::AbstractHeapType::Func }));
+            } else {
+                let f = s.r.gen_range(0..nfuncs);
+                s.out.push(I::RefFunc(f));
+            }
+        };
+        match self.r.gen_range(0..12) {
+            8 if !tabs.is_empty() && multi_t => {
+                small(self, 6);
+                reff(self);
+                let t = pick(self.r, &tabs, multi_t);
+                self.out.push(I::TableSet(t));
+            }
+            9 if !tabs.is_empty() && multi_t => {
+                small(self, 6);
+                reff(self);
+                small(self, 3);
+                let t = pick(self.r, &tabs, multi_t);
+                self.out.push(I::TableFill(t));
+            }
+            10 if !tabs.is_empty() && multi_t => {
+                reff(self);
+                small(self, 3);
+                let t = pick(self.r, &tabs, multi_t);
+                self.out.push(I::TableGrow(t));
+                self.out.push(I::Drop);
+            }
+            11 if !tabs.is_empty() && multi_t => {
+                small(self, 8);
+                let t = pick(self.r, &tabs, multi_t);
+                self.out.push(I::TableGet(t));
+                self.out.push(I::RefIsNull);
+                self.out.push(I::Drop);
+            }
             0 | 1 if !tabs.is_empty() && (multi_t || tabs[0] == 0) => {
                 small(self, 6);
                 small(self, 6);
